@@ -160,7 +160,7 @@ def rv_reg(march, rty):
 # TLC
 # ---------------------------------------------------------------------------------------------------
 def run_cfg(emit, invariants, nchunks=32, burst=24):
-    out = ["CONSTANTS", " NChunks = %d" % nchunks, " Burst = %d" % burst, "INIT Init",
+    out = ["CONSTANTS", " NChunks = %d" % nchunks, " Burst = %d" % burst, "ALIAS Shown", "INIT Init",
            "NEXT %s" % ("NextEmit" if emit else "Next"), "CHECK_DEADLOCK FALSE"]
     out += ["INVARIANT %s" % i for i in invariants]
     return "\n".join(out) + "\n"
